@@ -39,6 +39,11 @@ def make_case(seed, idx, tier):
         d = gen.gen_tree_case(rng, prof)
         d["options"]["random_seed"] = rng.randint(0, 10**6)
         d["kind"] = "c13run"
+        if (idx // 10) % 3 == 1:
+            # an evaluation-cutoff wrapper that runs out while the run goes on: the +-inf sentinels must mirror too
+            d["gsc"] = {"k": "melimit", "n": rng.randint(5, 9)}
+            for lv in d["levels"][1:] if rng.random() < 0.7 else d["levels"]:
+                lv["stack"] = [f"cutoff:{rng.choice([40, 90, 150])}"]
         return d
     n = rng.randint(4, 24)
     dim = rng.randint(1, 5)
